@@ -395,3 +395,49 @@ Definition scanner_required (text lit : str) (filename : fname) (id : N) : str +
                 (SSyntax k_syntax_error (Some lineno))
                 (CScan text (Some lineno) pos))                           (* TokenRequired *)
   end.
+
+(* how the body of a computation ends, whatever the mode: returns, raises a pybtex error
+   directly (fatal problems such as PrematureEOF are raised, not reported), or dies *)
+Fixpoint ending (c : comp) : outcome :=
+  match c with
+  | Done => Returned
+  | Fatal e => Raised e
+  | Foreign => Crashed
+  | Report _ k => ending k
+  end.
+
+(* the strict flag after a history: the last value set *)
+Fixpoint last_strict (s : bool) (ops : list op) : bool :=
+  match ops with
+  | [] => s
+  | OStrict b :: r => last_strict b r
+  | _ :: r => last_strict s r
+  end.
+
+(* well-formed error objects: the file name is None or text, and the scanner state behind a
+   TokenRequired points into the text *)
+Definition wf_ctx (c : ctx) : Prop :=
+  match c with
+  | CNone => True
+  | CAux _ => True
+  | CScan text None _ => True
+  | CScan text (Some ln) _ => (1 <= ln <= Z.of_nat (length (splitlines true text)))%Z
+  | CBib text start pos => pyslice text start (Some pos) <> []
+  end.
+Definition wf_err (e : err) : Prop := e_fn e <> FnBad /\ wf_ctx (e_ctx e).
+
+(* a is a contiguous part of s *)
+Definition infix (a s : str) : Prop := exists u v, s = u ++ a ++ v.
+
+(* what non-strict mode prints for problems whose renderings are ss *)
+Definition warn_text (ss : list str) : str := concat (map (fun s => s ++ [10]) ss).
+
+(* a program that is outside every capture block is not capturing *)
+Definition inv (g : G) (d : nat) : Prop := d = O -> g_cap g = None.
+
+(* the file name prefix format_error puts on a line *)
+Definition fname_prefix (e : err) (l : str) : str :=
+  match e_fn e with
+  | FnStr (c :: f) => (c :: f) ++ k_colon_sp ++ l
+  | _ => l
+  end.
